@@ -203,6 +203,9 @@ func (this *UTFCodec) Forward(src, dst []byte) (uint, uint, error) {
 	dstIdx++
 	estimate := dstIdx + 6
 
+	// The symbol map is part of the output
+	estimate += 3 * n
+
 	for i := 0; i < n; i++ {
 		r := n - 1 - i
 		s := symb[r].sym
